@@ -377,7 +377,7 @@ def run(tier, seed):
     par.pmap(_DL.work, _DL.tasks(tier), extra=(('complete',),), stats=st, chunk=12)
     # one probe connection goes wrong in one of 19 ways, on every probe connection of four servers: the audit still ends with a report
     from props import faultinv as _FI
-    par.pmap(_FI.work, _FI.tasks(), extra=((),), stats=st, chunk=6)
+    par.pmap(_FI.work, _FI.tasks(), extra=(('unaffected',),), stats=st, chunk=6)
     st.extra['reply_mutations'] = len(muts)
     # replay determinism: the same plan must give the same observation when executed again (and again after other executions)
     for arch, short, plan in H.pick(all_tasks, seed + 7, 60):
